@@ -478,9 +478,71 @@ def yield_finding(ctx, rid, k, f, ln, what):
                 "%s:%s" % (f.file, ln))
 
 
+def r45(ctx, fx):
+    rid = ctx.rule("R4.5", "the pass loop's error bail-out — the `return` that hands back the collected diagnostics when a pass repeats the errors of the previous one — is "
+                   "guarded by a condition over the two error sets only (`errors`, `prev_errors`): any further conjunct can stay false for a program with a persistent "
+                   "error, whose located diagnostic is then never reported")
+    loops = [f for f in fx.all_fns("mos_core") if f.kind == "fn" and any(lib.pm(lib.callee(t)[0], "CodegenContext::next_pass") for _, t in lib.calls(f))]
+    if len(loops) != 1:
+        ctx.fail_closed(rid, "pass loop (caller of next_pass) not found uniquely")
+        return
+    f = loops[0]
+    hits = []
+
+    def rec(n, conds, in_loop):
+        if isinstance(n, list):
+            for x in n:
+                rec(x, conds, in_loop)
+            return
+        if not isinstance(n, dict) or n.get("k") == "closure":
+            return
+        if n.get("k") == "ret" and in_loop:
+            a = lib.strip(n.get("a", {}))
+            if a.get("k") == "tup" and len(a["es"]) == 2 and lib.hpath(a["es"][1]) is not None and (lib.strip(a["es"][1]).get("ty") or "").endswith("errors::Diagnostics"):
+                hits.append((n, lib.hpath(a["es"][1]), list(conds)))
+        if n.get("k") == "loop":
+            in_loop = True
+        if n.get("k") == "if":
+            rec(n["cond"], conds, in_loop)
+            rec(n["then"], conds + [n["cond"]], in_loop)
+            if "else" in n:
+                rec(n["else"], conds, in_loop)
+            return
+        for v in n.values():
+            if isinstance(v, (dict, list)):
+                rec(v, conds, in_loop)
+    rec(f.hir["body"], [], False)
+    # the bail-out: returns the loop's own error accumulator (a mutable local of type Diagnostics assigned from emit_tokens' Err)
+    bail = [h for h in hits if h[1] == "errors"]
+    key = "%s|error-bail-out" % f.path
+    ctx.inst(rid, key, sample={"returns_in_loop": len(hits), "bail_out_sites": len(bail)})
+    if len(bail) != 1:
+        ctx.fail_closed(rid, "expected exactly one `return (…, errors)` inside the pass loop, found %d" % len(bail))
+        return
+    node, _, conds = bail[0]
+    # only the innermost guards that are not the loop's own `while` condition
+    names = set()
+    for c in conds:
+        d = lib.hdesc(c)
+        if "pass_idx" in repr(d):
+            continue
+        for t in lib.subterms(d):
+            if isinstance(t, tuple) and len(t) >= 2 and t[0] == "v":
+                names.add(t[1])
+            if isinstance(t, tuple) and len(t) >= 2 and t[0] == "f":
+                names.add("." + t[1])
+    extra = sorted(x for x in names if x not in ("errors", "prev_errors") and not x.startswith(".is_empty"))
+    # `ctx.segments.is_empty()` else-branch: the bail-out sits in the else of "no segments yet" — that is an `else`, not recorded in conds
+    ctx.inst(rid, key + "|guard", sample={"mentions": sorted(names)})
+    if extra:
+        ctx.finding(rid, key + "|guard", "the error bail-out of the pass loop also depends on %s: a program whose error persists while that condition stays false is "
+                    "never reported with its location (the loop runs to the pass bound instead)" % extra, "%s:%s" % (f.file, node.get("ln")))
+
+
 def run(ctx):
     fx = ctx.facts
     cg = lib.CallGraph(fx)
+    r45(ctx, fx)
     r41(ctx, fx, cg)
     r42(ctx, fx)
     r43(ctx, fx)
